@@ -83,7 +83,16 @@ def body_cluster(E, cfg):
     if len(clusters) < n:
         E.tag("merged")
     conservation(E, calls, clusters)
-    return [[c[0], c[1], c[2], c[3], str(c[4]), c[7], c[8]] if len(c) == 9 else "malformed" for c in clusters]
+    out = [[c[0], c[1], c[2], c[3], str(c[4]), c[7], c[8]] if len(c) == 9 else "malformed" for c in clusters]
+    # history: the caller clusters the very same rows again (write_indel_file called twice on one dictionary); the second result is
+    # held to the same statement with respect to the same calls
+    try:
+        again = wif.cluster_indels(given, blur) if not cfg.get("default_blur") else wif.cluster_indels(given)
+    except Exception as ex:  # noqa
+        E.fail("second-run:exception:" + type(ex).__name__)
+        return out
+    conservation(E, calls, again, "second-run-on-the-same-rows:")
+    return out
 
 
 def configs_cluster(tier):
